@@ -82,8 +82,9 @@ func main() {
 	cfg := &packages.Config{
 		Mode: packages.NeedName | packages.NeedFiles | packages.NeedSyntax | packages.NeedTypes |
 			packages.NeedTypesInfo | packages.NeedImports | packages.NeedDeps | packages.NeedCompiledGoFiles,
-		Dir:   *root,
-		Tests: false,
+		Dir:        *root,
+		Tests:      false,
+		BuildFlags: []string{"-tags=verif"},
 	}
 	loaded, err := packages.Load(cfg, patterns...)
 	if err != nil {
